@@ -60,13 +60,16 @@ def cfg_real(c, smooth=False):
                            stratified_sampling=None if c["strat"] == "none" else c["strat"])
 
 
+GAMS = [gamma.ident(), gamma.ident_int(), gamma.big_int(), gamma.ident_u8(), gamma.affine(0.1, 0.3)]
+
+
 def run_events(src_a, c, ids, cid, beh, script=None, np_seed=None, smooth=False, accumulate=False,
-               src_obj=None, inv=None):
+               src_obj=None, inv=None, G=G):
     """One bootstrap_sample call observed through the RNG shim."""
     evs = []
 
     def ev(op, **kw):
-        e = {"id": next(ids), "cid": cid, "beh": beh, "op": op, "exc": "", "conc": "ident"}
+        e = {"id": next(ids), "cid": cid, "beh": beh, "op": op, "exc": "", "conc": G.name}
         e.update(kw)
         evs.append(e)
         return e
@@ -98,6 +101,63 @@ def run_events(src_a, c, ids, cid, beh, script=None, np_seed=None, smooth=False,
     for d in sh.calls:
         ev("Draw", **d)
     ev("Built", **built)
+    return evs
+
+
+def callable_events(ids, cid):
+    """sampling_method given as a callable, in every form a callable can take: it must be called once,
+    with the source, and its return value IS the sample."""
+    import dataclasses
+    import functools
+    from score_analysis import BootstrapConfig, Scores
+    src = Scores([1.0, 2.0, 3.0], [0.0, 1.5], nb_easy_pos=1)
+    other = Scores([2.0, 2.0], [1.5])
+    log = []
+
+    def fn(s, tag="fn"):
+        log.append((tag, s))
+        return other
+
+    class Obj:
+        def __call__(self, s):
+            return fn(s, "obj")
+
+        def meth(self, s):
+            return fn(s, "meth")
+
+    @dataclasses.dataclass
+    class Param:                       # eq=True, not frozen: instances are unhashable
+        k: int = 1
+
+        def __call__(self, s):
+            return fn(s, "dataclass")
+
+    class EqNoHash:
+        __hash__ = None
+
+        def __eq__(self, o):
+            return self is o
+
+        def __call__(self, s):
+            return fn(s, "eq_no_hash")
+
+    forms = {"function": fn, "lambda": lambda s: fn(s, "lambda"), "partial": functools.partial(fn, tag="partial"),
+             "callable_object": Obj(), "bound_method": Obj().meth, "dataclass_instance": Param(3),
+             "eq_without_hash": EqNoHash()}
+    evs = []
+    for form, f in forms.items():
+        e = {"id": next(ids), "cid": cid, "beh": cid, "op": "Callable", "exc": "", "conc": "ident", "form": form,
+             "ncalls": 0, "called_with_source": False, "returned_as_is": False}
+        del log[:]
+        try:
+            for strat in (None, "by_label"):
+                smp = src.bootstrap_sample(BootstrapConfig(sampling_method=f, stratified_sampling=strat))
+                e["returned_as_is"] = bool(smp is other)
+            e["ncalls"] = len(log)
+            e["called_with_source"] = all(x[1] is src for x in log)
+        except Exception as ex:  # noqa
+            e["exc"] = sd.exc_str(ex)
+        evs.append(e)
     return evs
 
 
@@ -133,7 +193,7 @@ def run(ctx: core.Ctx):
             script = [list(d) if isinstance(d, tuple) else d for d in st["draws"]]
             cid = len(cases)
             cases.append({"kind": "tlc_run", "src": rec_obj(st["src"]), "cfg": c, "draws": script})
-            ev_small += run_events(st["src"], c, ids, cid, cid, script=script)
+            ev_small += run_events(st["src"], c, ids, cid, cid, script=script, G=GAMS[(cid + ctx.seed) % len(GAMS)])
             ctx.nontrivial.add(json.dumps(cases[-1], sort_keys=True))
         # seeded small runs under the lowered switch (code -> spec on the same model)
         rnd = np.random.RandomState(ctx.seed + 5)
@@ -142,7 +202,7 @@ def run(ctx: core.Ctx):
             c = {"method": st["cfg"]["method"], "strat": st["cfg"]["strat"], "ratio": list(st["cfg"]["ratio"])}
             cid = len(cases)
             cases.append({"kind": "seeded_small", "src": rec_obj(st["src"]), "cfg": c, "np_seed": ctx.seed + k})
-            ev_small += run_events(st["src"], c, ids, cid, cid, np_seed=ctx.seed + k)
+            ev_small += run_events(st["src"], c, ids, cid, cid, np_seed=ctx.seed + k, G=GAMS[k % len(GAMS)])
     finally:
         set_switch(100)
     ctx.extra["tlc_runs_replayed"] = len(states)
@@ -200,6 +260,8 @@ def run(ctx: core.Ctx):
             np.random.seed(ctx.seed + 77 * b)
             for k in range(8):
                 ev_big += run_events(src_a, c, ids, cid, cid, src_obj=src, inv=inv)
+    ev_small += callable_events(ids, len(cases))
+    cases.append({"kind": "callable"})
     ctx.sample([e for e in ev_small if e["cid"] == len(states) // 2])
     ctx.judge("Trace_C11", ev_small, cases=cases, tag="small", batch=4000,
               consts_cfg=JUDGE_CONSTS.format(th=2))
